@@ -364,6 +364,12 @@ func (wf *Workflow) readyToRun(procs map[string]WorkflowProcess) bool {
 			return false
 		}
 	}
+	// A process without out-ports that has taken over the driver role has
+	// been removed from the procs map, but its ports need to be connected too
+	if wf.driver != WorkflowProcess(wf.sink) && !wf.driver.Ready() {
+		Error.Println(wf.name + ": Not everything connected. Workflow shutting down.")
+		return false
+	}
 	return true
 }
 
